@@ -127,6 +127,10 @@ pub struct C14Model {
     pub margin_h: i64,
     pub next_h: i64,
     pub roa_reissue_weeks: i64,
+    /// re-issue margins (weeks) of ASPA objects and router certificates where
+    /// they differ from the ROA margin
+    pub aspa_reissue_weeks: i64,
+    pub bgpsec_reissue_weeks: i64,
     pub roa_valid_weeks: i64,
     /// observation of the previous state on this path
     last: Option<ObsBox>,
@@ -226,6 +230,17 @@ fn pump_repo_only(w: &mut World, out: &mut OpOutcome) {
 /// RenewObjectsIfNeeded tasks do, followed by the triggered tasks.
 pub const MAINTAIN: Op = Op::Tick { secs: 0 };
 
+impl C14Model {
+    fn obj_margin(&self, kind: &str) -> i64 {
+        let w = match kind {
+            "asa" => self.aspa_reissue_weeks,
+            "router" => self.bgpsec_reissue_weeks,
+            _ => self.roa_reissue_weeks,
+        };
+        w * 7 * 86400
+    }
+}
+
 impl Model for C14Model {
     fn alphabet(&mut self, w: &World, _depth: usize, _path: &[Op]) -> Vec<Op> {
         let c = || "ca".to_string();
@@ -242,10 +257,16 @@ impl Model for C14Model {
                     ops.push(Op::Tick { secs: edge + 2 }); // just inside the margin
                 }
             }
-            if let Some(min_exp) = o.objs.values().map(|s| s.not_after).min() {
-                let edge = min_exp - self.roa_reissue_weeks * 7 * 86400 - now;
+            // per kind of object: just inside its re-issue margin
+            let mut edges = std::collections::BTreeSet::new();
+            for kind in ["roa", "asa", "router"] {
+                if let Some(min_exp) = o.objs.values().filter(|s| s.kind == kind).map(|s| s.not_after).min() {
+                    edges.insert(min_exp - self.obj_margin(kind) - now);
+                }
+            }
+            for edge in edges {
                 if edge + 2 > 0 && edge + 2 < 400 * 86400 {
-                    ops.push(Op::Tick { secs: edge + 2 }); // object just inside re-issue margin
+                    ops.push(Op::Tick { secs: edge + 2 });
                 }
             }
         }
@@ -365,10 +386,9 @@ impl Model for C14Model {
         };
         // which object kinds are due per CA (decides how many renew commands
         // re-issue that CA's sets in the second phase)
-        let obj_margin0 = self.roa_reissue_weeks * 7 * 86400;
         let mut due_kinds: BTreeMap<String, std::collections::BTreeSet<&'static str>> = BTreeMap::new();
         for (uri, p) in &mid.objs {
-            if now > p.not_after - obj_margin0 {
+            if now > p.not_after - self.obj_margin(p.kind) {
                 due_kinds.entry(ca_of(uri)).or_default().insert(p.kind);
             }
         }
@@ -423,9 +443,9 @@ impl Model for C14Model {
             }
         }
         // objects within the re-issue margin of expiry
-        let obj_margin = self.roa_reissue_weeks * 7 * 86400;
         let mut any_obj_due = false;
         for (uri, p) in &pre.objs {
+            let obj_margin = self.obj_margin(p.kind);
             let due = now > p.not_after - obj_margin;
             if !due {
                 continue;
@@ -552,11 +572,51 @@ pub fn run(tier: &Tier, args: &[String]) -> i32 {
         margin_h,
         next_h,
         roa_reissue_weeks: reissue_w,
+        aspa_reissue_weeks: reissue_w,
+        bgpsec_reissue_weeks: reissue_w,
         roa_valid_weeks: valid_w,
         last: None,
         mid: None,
     };
     let mut configs = vec![
+        // each kind of object has its own re-issue margin (ROA 2, ASPA 4,
+        // router certificate 6 weeks of 12); one of each is configured
+        Config {
+            name: "per-kind-margins-roa2-aspa4-router6".into(),
+            build: Box::new(|| {
+                let mut c = cfg(24, 8, 12, 2);
+                c.timing.timing_aspa_reissue_weeks_before = 4;
+                c.timing.timing_bgpsec_reissue_weeks_before = 6;
+                let mut w = c01::build_w3(c)?;
+                for op in [
+                    Op::Roa { ca: "ca".into(), add: vec![c01::ROA_A.into()], del: vec![] },
+                    Op::AspaSet { ca: "ca".into(), customer: 65000, providers: vec![65001] },
+                    Op::BgpsecAdd { ca: "ca".into(), asn: 65000, csr: 0 },
+                ] {
+                    let o = w.apply_pumped(&op);
+                    if !o.ok {
+                        return Err(format!("{op}: {:?}", o.err));
+                    }
+                }
+                w.settle()?;
+                Ok(w)
+            }),
+            model: {
+                let mut m = mk(24, 8, 12, 2);
+                m.aspa_reissue_weeks = 4;
+                m.bgpsec_reissue_weeks = 6;
+                // the reference knows what the build configured
+                let done = crate::ops::OpOutcome { ok: true, err: None, tasks: vec![], fatal: None };
+                for op in [
+                    Op::Roa { ca: "ca".into(), add: vec![c01::ROA_A.into()], del: vec![] },
+                    Op::AspaSet { ca: "ca".into(), customer: 65000, providers: vec![65001] },
+                    Op::BgpsecAdd { ca: "ca".into(), asn: 65000, csr: 0 },
+                ] {
+                    m.inner.intent.update(&op, &done);
+                }
+                m
+            },
+        },
         Config {
             name: "next24-margin8-roa52w4".into(),
             build: Box::new(|| c01::build_w3(cfg(24, 8, 52, 4))),
